@@ -66,6 +66,24 @@ def _ref_verdict(raw, plan, amounts):
     return True, ''
 
 
+def _save_object(t):
+    return {'outputs': list(t.outputs), 'out_fields': [(o.value, o.lock_script) for o in t.outputs],
+            'locktime': t.locktime, 'version': t.version, 'version_int': t.version_int,
+            'inputs': [(i.prev_txid, i.output_n, i.output_n_int, i.sequence, i.value, list(i.signatures))
+                       for i in t.inputs]}
+
+
+def _restore_object(t, s):
+    t.outputs[:] = s['outputs']
+    for o, (v, ls) in zip(t.outputs, s['out_fields']):
+        o.value = v
+        o.lock_script = ls
+    t.locktime, t.version, t.version_int = s['locktime'], s['version'], s['version_int']
+    for i, (ptx, on, oni, seq, val, sigs) in zip(t.inputs, s['inputs']):
+        i.prev_txid, i.output_n, i.output_n_int, i.sequence, i.value = ptx, on, oni, seq, val
+        i.signatures[:] = sigs
+
+
 def _tamper_object(t, plan, tam, amounts):
     """Apply tamper to the signed library object. Returns False if not applicable."""
     from bitcoinlib.keys import Key, sign as lib_sign, Signature
@@ -336,6 +354,8 @@ def check(ctx, case):
         if case.get('verify_first'):
             first, _ = _lib_verify(t)
             ctx.klass('tamper.after_successful_verify' if first else 'tamper.after_failed_verify')
+        saved = _save_object(t)
+        amounts0 = list(amounts)
         try:
             applied = _tamper_object(t, plan, tam, amounts)
         except Exception as e:
@@ -345,10 +365,36 @@ def check(ctx, case):
             ctx.klass('tamper.not_applicable')
             return
         got, exc = _lib_verify(t)
+        raw2_pre = None
+        if case.get('restore'):
+            try:
+                raw2_pre = t.raw()
+            except Exception as e:
+                raw2_pre = e
+            # the modification is taken back: the object is again the correctly signed transaction it was and must
+            # verify, whatever verdict it was given in between
+            amounts_t = list(amounts)
+            try:
+                _restore_object(t, saved)
+                amounts[:] = amounts0
+                same = t.raw() == raw
+            except Exception as e:
+                same = False
+            if same:
+                ctx.klass('tamper.restored')
+                again, exc2 = _lib_verify(t)
+                if not again:
+                    ctx.disc('complete.verify_false:after_restore:%s' % kinds, 'verify() False (%r) on the correctly '
+                             'signed transaction after tamper %s had been applied, judged (%r) and taken back '
+                             '(the object serialises to the original bytes again)' % (exc2, tam['op'], got), case)
+                    return
         # reference verdict on what the tampered object serialises to (sig list tampers do not change bytes)
         try:
-            raw2 = t.raw()
-            ref_ok, why = _ref_verdict(raw2, plan, amounts)
+            if isinstance(raw2_pre, Exception):
+                raise raw2_pre
+            raw2 = raw2_pre if raw2_pre is not None else t.raw()
+            # (amounts as they were while the object was tampered)
+            ref_ok, why = _ref_verdict(raw2, plan, amounts_t if raw2_pre is not None else amounts)
         except Exception as e:
             ref_ok, why = False, 'unserialisable: %r' % e
         k_t = tam['i'] % len(plan['inputs'])
@@ -467,7 +513,7 @@ def _strategy(ctx):
                       'b': draw(st.integers(0, 255))}
         return {'kind': 'verify', 'plan': plan, 'mode': mode, 'tamper': tamper, 'medium': medium,
                 # the object is (successfully) verified once before it is tampered with: verdicts may not be remembered
-                'verify_first': draw(st.booleans())}
+                'verify_first': draw(st.booleans()), 'restore': draw(st.sampled_from([False, False, True]))}
     return cases()
 
 
